@@ -99,11 +99,9 @@ func ExtractTypeNameMap(v interface{}) (map[string]reflect.Type, map[string]stri
 		typMap[name] = typ
 		nameMap[name] = name
 
-		if v.CanInterface() {
-			if n, ok := v.Interface().(CodecNamable); ok {
-				nameMap[name] = n.HessianCodecName()
-				typMap[n.HessianCodecName()] = typ
-			}
+		if n, ok := declaredCodecName(typ); ok {
+			nameMap[name] = n
+			typMap[n] = typ
 		}
 		return true
 	})
@@ -129,6 +127,34 @@ func ExtractTypeNameMap(v interface{}) (map[string]reflect.Type, map[string]stri
 	}
 
 	return typMap, nameMap
+}
+
+// declaredCodecName returns the wire name the type itself declares through HessianCodecName,
+// on the value or on the pointer receiver. A method that is only promoted from an embedded field
+// names the embedded type, not the struct that embeds it.
+func declaredCodecName(typ reflect.Type) (name string, ok bool) {
+	defer func() {
+		if recover() != nil { // the promoted method of a nil embedded pointer
+			name, ok = "", false
+		}
+	}()
+	n, is := reflect.New(typ).Interface().(CodecNamable)
+	if !is {
+		return "", false
+	}
+	name = n.HessianCodecName()
+	if typ.Kind() == reflect.Struct {
+		for i := 0; i < typ.NumField(); i++ {
+			f := typ.Field(i)
+			if !f.Anonymous {
+				continue
+			}
+			if en, is := reflect.New(UnpackPtrType(f.Type)).Interface().(CodecNamable); is && en.HessianCodecName() == name {
+				return "", false
+			}
+		}
+	}
+	return name, true
 }
 
 // holdsInterface reports whether values of container type t can hold
